@@ -13,14 +13,15 @@ TECHNIQUE = ('runtime monitoring: a processor is made to fail on one chosen obje
              'layout; filename, line, col, nchar of the TextXError that reaches the caller are compared with that ground truth')
 RULE = ('tree models (generator of C13) printed with random indentation, blank lines and comments, with the span of every '
         'object and matched value recorded by the printer; one or two files (ImportURI), loaded from strings and files. One '
-        'failing processor per load on a random object (Block/Leaf/Ref, abstract rule Item) or match (Val/Tag), raising (a) '
+        'failing processor per load on a random object (Block/Leaf/Ref, abstract rule Item) or match (Val/Tag, and the parts Num of a composite match rule Range: Num .. Num laid out over several lines), raising (a) '
         'TextXError without location, (b) TextXError with its own full or partial location, (c) ValueError through '
         'textxerror_wrap. Oracle: filename of the file holding the text (None for strings), line/col of the start of the '
         'object / match, nchar = object length for object processors; processor-supplied fields kept (variants: filename only, line+col, line only, nchar only, all four) and the missing ones filled from the processed text. distinct = (tree '
         'shape, target kind, raise variant, load kind); non-trivial = target not on the first line or in the imported file')
 REQUIRED = {'errors_checked': 500, 'object_processor_errors': 150, 'match_processor_errors': 100, 'own_location_kept': 50,
             'wrapped_foreign_exceptions': 80, 'imported_file_errors': 40, 'string_loads': 50, 'nchar_checked': 100,
-            'partial_location_completed': 60}
+            'partial_location_completed': 60, 'inner_match_of_composite_match_rule': 50,
+            'inner_match_after_newline_inside_composite': 15}
 
 
 def pr(n, spans, ind, r, out):
@@ -54,8 +55,22 @@ def pr(n, spans, ind, r, out):
             out.append(':')
             gap()
             vs = cur()
-            out.append(str(n['val']))
-            spans['val:' + n['name']] = (vs, cur())
+            if isinstance(n['val'], tuple):
+                # a match rule composed of match rules: Range: Num '..' Num, laid out over several lines
+                lo, hi = n['val']
+                ns = cur()
+                out.append(str(lo))
+                spans['num:%s' % lo] = (ns, cur())
+                gap()
+                out.append('..')
+                gap()
+                ns = cur()
+                out.append(str(hi))
+                spans['num:%s' % hi] = (ns, cur())
+                spans['range:' + n['name']] = (vs, cur())
+            else:
+                out.append(str(n['val']))
+                spans['val:' + n['name']] = (vs, cur())
     elif n['kind'] == 'Ref':
         out.append('ref')
         gap()
@@ -129,6 +144,8 @@ def one(ctx, i, rep=None):
             if n['kind'] == 'Leaf' and n['val'] is not None:
                 uniq[0] += 1
                 n['val'] = (100 + uniq[0]) if uniq[0] % 2 else '"s%d"' % uniq[0]
+                if uniq[0] % 3 == 0:
+                    n['val'] = (1000 + 2 * uniq[0], 1001 + 2 * uniq[0])
             if n['kind'] == 'Block' and n.get('tag'):
                 uniq[0] += 1
                 n['tag'] = '#u%d' % uniq[0]
@@ -142,7 +159,7 @@ def one(ctx, i, rep=None):
     fi = r.randrange(len(roots))
     cands = [(k, v) for k, v in spans[fi].items() if not k.startswith('root')]
     key, span = r.choice(cands)
-    is_match = key.startswith(('val:', 'tag:'))
+    is_match = key.startswith(('val:', 'tag:', 'num:', 'range:'))
     variant = r.choice(['plain', 'plain', 'own_full', 'own_partial', 'own_linecol', 'own_line', 'own_nchar', 'wrapped', 'wrapped'])
     node_kind = None
     if not is_match:
@@ -172,13 +189,24 @@ def one(ctx, i, rep=None):
         if is_match and key.startswith('val:') and str(v) == texts[fi][span[0]:span[1]].strip('"'):
             fail(v)
 
+    def numproc(v):
+        if key.startswith('num:') and str(v) == key[4:]:
+            fail(v)
+        return v
+
+    def rangeproc(v):
+        if key.startswith('range:') and str(v) == ''.join(texts[fi][span[0]:span[1]].split()).replace('//c', ''):
+            fail(v)
+        return v
+
     def tagproc(v):
         if is_match and key.startswith('tag:') and v == texts[fi][span[0]:span[1]]:
             fail(v)
     wrap = textxerror_wrap if variant == 'wrapped' else (lambda f: f)
-    mm = metamodel_from_str(T.GRAMMAR + 'Comment: /\\/\\/.*$/;\n')
+    mm = metamodel_from_str(T.GRAMMAR.replace('Val: INT | STRING;', "Val: Range | INT | STRING;\nRange: Num '..' Num;\nNum: /\\d+/;")
+                            + 'Comment: /\\/\\/.*$/;\n')
     mm.register_scope_providers({'*.*': sp.PlainNameImportURI()})
-    procs = {'Val': wrap(valproc), 'Tag': wrap(tagproc)}
+    procs = {'Val': wrap(valproc), 'Tag': wrap(tagproc), 'Num': wrap(numproc), 'Range': wrap(rangeproc)}
     if via_abstract:
         procs['Item'] = wrap(objproc)
     else:
@@ -226,6 +254,10 @@ def one(ctx, i, rep=None):
         ctx.count('imported_file_errors')
     if as_string:
         ctx.count('string_loads')
+    if key.startswith('num:'):
+        ctx.count('inner_match_of_composite_match_rule')
+        if '\n' in texts[fi][spans[fi][[k for k in spans[fi] if k.startswith('range:') and spans[fi][k][0] <= span[0] < spans[fi][k][1]][0]][0]:span[0]]:
+            ctx.count('inner_match_after_newline_inside_composite')
     exp_file = None if as_string else paths[fi]
     exp = {'filename': exp_file, 'line': el, 'col': ec}
     if not is_match:
